@@ -105,7 +105,7 @@ CHECKS = {
  "C19": dict(
     level=TV, design="2/C19", engine="tvsmt",
     technique="results of one request obtained in fresh subprocesses under different PYTHONHASHSEEDs, seeded API histories and an alternative tensor-name configuration are shipped as IR and compared with the pristine result by z3 (value equality for all tensor entries / target assignments); CrossHair inductive steps of the index registry (a generic request, and an explicit request of a symbolically chosen name followed by a generic request, from an arbitrary pre-state satisfying the invariant: freshness of generic names for histories of any length); text after substitute_contracted, index-set disjointness and object identity compared directly",
-    text="8 (thorough 13) requests x 4 (16) hash seeds x 3 (11) histories of 4-34 calls + 2 runs with every tensor name changed; registry steps confirmed from every pre-state of a two-letter cell; repeated psi / norm_factor / expand_itmd requests share no contracted index.",
+    text="10 (thorough 15) requests x 4 (16) hash seeds x 3 (11) histories of 4-34 calls + 2 runs with every tensor name changed + runs with a chained configuration (left / right ADC amplitude names swapped; also rename_tensors of an expression in default names); registry steps confirmed from every pre-state of a two-letter cell; repeated psi / norm_factor / expand_itmd requests share no contracted index and no term of the precursor states up to third order holds an index more than twice.",
     note="Hash seeds and histories are a bounded sample, not solver variables (stated in evidence). Known finding C19-text-history: the text after substitute_contracted depends on the history (same value); recorded in known_findings.json, not repaired."),
 }
 NA_REASON = "check not built yet in this round (planned, see DESIGN.md section 2)"
